@@ -127,6 +127,27 @@ func (g *Gen) refreshProposals() {
 		}
 		g.props = append(g.props, app.BatchConfig{ActivationBlockNumber: act, Keypers: ks, Threshold: th, KeyperConfigIndex: idx})
 	}
+	// near-identical competitors: same config except for one field (threshold, keyper order,
+	// activation block), so that "identical configuration" is actually tested
+	if len(g.props) >= 2 && g.R.Chance(1, 2) {
+		c := g.props[0]
+		c.Keypers = append([]common.Address{}, c.Keypers...)
+		switch g.R.Intn(3) {
+		case 0:
+			if c.Threshold > 1 {
+				c.Threshold--
+			} else if int(c.Threshold) < len(c.Keypers) {
+				c.Threshold++
+			}
+		case 1:
+			if len(c.Keypers) >= 2 {
+				c.Keypers[0], c.Keypers[1] = c.Keypers[1], c.Keypers[0]
+			}
+		default:
+			c.ActivationBlockNumber++
+		}
+		g.props[1] = c
+	}
 }
 
 func (g *Gen) currentDKGConfig() (uint64, *app.BatchConfig) {
